@@ -147,7 +147,7 @@ def floors(tier):
 
 
 ROUTES = ['ctor_like', 'template', 'fxp_of', 'deepcopy', 'like', 'add', 'mul_const', 'out_like', 'neg', 'invert', 'and_mask', 'lshift', 'rshift', 'np_sum', 'm_sum',
-          'np_add', 'm_max', 'np_transpose', 'clip', 'equal']
+          'np_add', 'm_max', 'np_transpose', 'clip', 'equal', 'T', 'flatten', 'ravel', 'fxp_like', 'm_transpose', 'np_sort', 'abs', 'pos', 'conj', 'm_cumsum', 'np_diagonal', 'sub_const', 'rsub']
 MUTATIONS = ['write', 'indexed', 'flagging_write', 'reset', 'config', 'resize']
 
 
@@ -195,7 +195,7 @@ def run_case(case, ctx):
         route = ROUTES[i % len(ROUTES)]
         s, w, nf = G.conventional_format(rng, 4, 16)
         r, o = rng.choice(G.MODES)
-        arr = (i // len(ROUTES)) % 2 == 1 or route in ('np_sum', 'm_sum', 'm_max', 'np_transpose')
+        arr = (i // len(ROUTES)) % 2 == 1 or route in ('np_sum', 'm_sum', 'm_max', 'np_transpose', 'T', 'flatten', 'ravel', 'm_transpose', 'np_sort', 'm_cumsum', 'np_diagonal')
         lo, hi = R.code_range(s, w)
 
         def val():
@@ -249,6 +249,32 @@ def run_case(case, ctx):
         elif route == 'equal':
             B = Fxp(np.zeros((2, 2)) if arr else None, s, w + 2, nf + 1)
             _try(lambda: B.equal(A))
+        elif route == 'T':
+            B = _try(lambda: A.T)
+        elif route == 'flatten':
+            B = _try(lambda: A.flatten())
+        elif route == 'ravel':
+            B = _try(lambda: A.ravel())
+        elif route == 'fxp_like':
+            B = _try(lambda: fm.fxp_like(A, A.get_val()))
+        elif route == 'm_transpose':
+            B = _try(lambda: A.transpose())
+        elif route == 'np_sort':
+            B = _try(lambda: np.sort(A, axis=0))
+        elif route == 'abs':
+            B = _try(lambda: abs(A))
+        elif route == 'pos':
+            B = _try(lambda: +A)
+        elif route == 'conj':
+            B = _try(lambda: A.conj())
+        elif route == 'm_cumsum':
+            B = _try(lambda: A.cumsum(axis=0))
+        elif route == 'np_diagonal':
+            B = _try(lambda: np.diagonal(A))
+        elif route == 'sub_const':
+            B = _try(lambda: A - 1)
+        elif route == 'rsub':
+            B = _try(lambda: 1 - A)
         if B is None or not isinstance(B, Fxp):
             ctx.violation('derivation_failed', 'route %s produced no object' % route)
             return
